@@ -127,7 +127,15 @@ func runC08(c *Case) error {
 		c.decode(&in)
 		t := in.T.sparse()
 		d := in.D.csr()
+		if c.ID%2 == 1 {
+			// the distrust matrix is an input: an earlier discount of another score vector with the same
+			// matrix must not matter
+			_ = basic.DiscountTrustVector(in.T.sparse(), d)
+		}
 		err := basic.DiscountTrustVector(t, d)
+		if !sameMat(in.D, &d.CSMatrix) {
+			panic("DiscountTrustVector modified the distrust matrix it was given")
+		}
 		if err != nil {
 			c.setObs("error: " + err.Error())
 			c.coq = fmt.Sprintf("Discount %s %s None", cVec(in.T), cMat(in.D))
